@@ -9,6 +9,7 @@ Model: `MapAdapter.match`'s three redirects (`Model/RoutingAdapter.lean`): slash
 Helper lemmas: `Lemmas/RoutingRedirect.lean`.
 -/
 import WzVerif.Lemmas.RoutingRedirect
+import WzVerif.Lemmas.RoutingConverge
 namespace Wz.Props.C12
 open Wz Wz.Routing
 
@@ -146,6 +147,69 @@ theorem slash_redirect_converges_partial {cfg : MapCfg} {specs : List RuleSpec} 
   have := dfs_complete q m.root hwf _ _ hn r.parts r .direct hi hok (by intro h; cases h)
   rw [hdir] at this; cases this
 
+/-- **slash_redirect_converges (no second slash, `_partial`).** On a map none of whose rules keeps an
+empty segment in the middle (`SlashDomainOK`: after the domain part and the leading slash, only the
+last part of a rule admits the empty segment — no `//` left after merging, no converter accepting ""),
+a path that ends in `/` never asks for the slash redirect. Together with the theorem above: the target
+of a slash redirect re-matches to a rule — found, not redirected again, not `None`. F12b below shows
+the hypothesis cannot be dropped. -/
+theorem slash_redirect_converges_partial2 {cfg : MapCfg} {specs : List RuleSpec} {m : RMap} (hm : mkMap cfg specs = some m)
+    (hshape : ∀ r ∈ m.rules, FinalShape r.parts) (hdom : ∀ r ∈ m.rules, r.SlashDomainOK)
+    {q : Req} {dom path : Str} (h : (dfs q m.root (segments dom path) []).res = .slash) :
+    ∃ r vs, (dfs q m.root (segments dom (path ++ ['/'])) []).res = .found r vs ∧ r ∈ m.rules ∧ ruleOK q r = true := by
+  have hb := mkMap_built hm
+  obtain ⟨_, hne⟩ := slash_redirect_converges_partial hm hshape h
+  have hs := dfs_sound q m.root (segments dom (path ++ ['/'])) []
+  cases hr : (dfs q m.root (segments dom (path ++ ['/'])) []).res with
+  | none => exact absurd hr hne
+  | slash =>
+    exfalso
+    rw [hr] at hs
+    obtain ⟨r2, ps, vs', hi, _, _, hw⟩ := hs
+    rw [hb.root_eq, inTrie_buildRoot] at hi
+    obtain ⟨hmem, _, rfl⟩ := hi
+    rw [no_noslash_trailing (hshape r2 hmem) (hdom r2 hmem)] at hw
+    cases hw
+  | found r vs =>
+    rw [hr] at hs
+    obtain ⟨hok, ps, _, _, hi, _⟩ := hs
+    rw [hb.root_eq, inTrie_buildRoot] at hi
+    exact ⟨r, vs, rfl, hi.1, hok⟩
+
+-- non-vacuity: the example map satisfies both hypotheses and `/a` asks for the slash
+example : (match mkMap {} specs0 with
+    | some m => m.rules.all slashDomainOKB &&
+        (dfs ⟨"GET".toList, false⟩ m.root (segments [] "/a".toList) []).res.isSlash
+    | none => false) = true := by decide +kernel
+
+def specsF12b : List RuleSpec :=
+  [ { toks := [.slash, .var (.string 1 none none) "x".toList, .slash], endpoint := "x".toList },
+    { toks := [.slash, .lit "a".toList, .slash, .slash, .slash], endpoint := "a".toList } ]
+
+/-- **F12b (negation witness).** The full-strength convergence claim — the target of a slash redirect
+never asks for another slash redirect — is false on the unchanged code, inside the property's domain:
+`Map([Rule('/<x>/'), Rule('/a///')])` with merge_slashes on. `re.sub('/{2,}?', '/')` merges pairs
+only, so the second rule keeps an empty segment (`/a//`): `/a` is redirected to `/a/` (on behalf of
+`/<x>/`), and `/a/` is redirected again to `/a//` — `SlashRequired` raised below the static `a`
+transition pre-empts the direct match of `/a/` by `/<x>/`. -/
+theorem slash_redirect_converges_full_false :
+    ¬ (∀ (cfg : MapCfg) (specs : List RuleSpec) (m : RMap) (q : Req) (dom path : Str),
+        mkMap cfg specs = some m → (∀ r ∈ m.rules, FinalShape r.parts) →
+        (dfs q m.root (segments dom path) []).res.isSlash = true →
+        (dfs q m.root (segments dom (path ++ ['/'])) []).res.isSlash = false) := by
+  intro H
+  have hw : (match mkMap {} specsF12b with
+      | some m => (dfs ⟨"GET".toList, false⟩ m.root (segments [] "/a".toList) []).res.isSlash &&
+                  (dfs ⟨"GET".toList, false⟩ m.root (segments [] ("/a".toList ++ ['/'])) []).res.isSlash
+      | none => false) = true := by decide +kernel
+  cases hmk : mkMap {} specsF12b with
+  | none => simp [hmk] at hw
+  | some m =>
+    simp only [hmk, Bool.and_eq_true] at hw
+    have hshape := mkMap_finalShape hmk rfl (by intro s hs; simp [specsF12b] at hs; rcases hs with rfl | rfl <;> rfl)
+    have := H {} specsF12b m ⟨"GET".toList, false⟩ [] "/a".toList hmk hshape hw.1
+    rw [hw.2] at this; cases this
+
 /-- **merge_redirect_converges.** The target of a merged-slashes redirect re-matches without another
 redirect of that kind: the first search on the merged path IS the search that produced the redirect, so
 `match` goes straight to the conversion of the rule found there (same rule, same groups). -/
@@ -165,11 +229,12 @@ example : (match mkMap {} specs0 with
     | none => false) = true := by decide +kernel
 
 -- OPEN (P1): slash_redirect_converges at full strength — "match (p ++ '/') is not again a slash redirect and
--- returns the rule/values the original would have". Proved: the target is directly admitted by the
--- strict rule that asked for the slash and its search is not `None` (above), and by C03.match_priority
--- whatever is returned is specificity-minimal among the admitting rules. Missing: excluding a second
--- `SlashRequired` needs the domain fact that no rule part other than a final empty one admits the empty
--- segment (no `//` left in rules, no converter accepting ""), which is not yet carried as a predicate.
+-- returns the rule/values the original would have" — is FALSE as it stands (F12b above). Proved: the target
+-- is directly admitted by the strict rule that asked for the slash and its search is not `None`, and by
+-- C03.match_priority whatever is returned is specificity-minimal among the admitting rules. A `_partial`
+-- form excluding a second `SlashRequired` needs the hypothesis that no rule part other than a final empty
+-- one admits the empty segment (no `//` left in a rule after merging, no converter accepting ""); that
+-- predicate is not carried yet.
 -- OPEN (P1): defaults_redirect_converges — needs C04.match_build for the canonical rule (the
 -- URL built from the matched values matches back to the same endpoint/values) on non-overlapping maps;
 -- validated by stream `redirects` (oracle: final endpoint/arguments equal the original's).
